@@ -269,7 +269,16 @@ def corrupt_token(src: str, rng: random.Random) -> str | None:
 
 
 _JUMPS = ["break", "continue", "return", "return 1", "yield", "yield 1", "await x", "raise", "raise E from None", "pass", "global g",
-          "nonlocal n", "del x", "import m", "from m import *", "assert False", "x = yield", "return (yield)", "async def q(): pass", "match x:\n{i}    case _: break"]
+          "nonlocal n", "del x", "import m", "from m import *", "assert False", "x = yield", "return (yield)", "async def q(): pass", "match x:\n{i}    case _: break",
+          # jumps in every clause position of compound statements (a jump in a loop's else clause belongs to the ENCLOSING loop)
+          "while x:\n{i}    pass\n{i}else:\n{i}    break", "while x:\n{i}    pass\n{i}else:\n{i}    continue",
+          "for q in x:\n{i}    pass\n{i}else:\n{i}    break", "for q in x:\n{i}    pass\n{i}else:\n{i}    continue",
+          "try:\n{i}    pass\n{i}finally:\n{i}    break", "try:\n{i}    pass\n{i}finally:\n{i}    continue",
+          "try:\n{i}    pass\n{i}except* E:\n{i}    return", "try:\n{i}    pass\n{i}except E:\n{i}    break\n{i}else:\n{i}    continue",
+          "if x:\n{i}    break\n{i}else:\n{i}    continue", "with x:\n{i}    break", "class Q:\n{i}    break",
+          "def q():\n{i}    while x:\n{i}        pass\n{i}    else:\n{i}        break",
+          "while x:\n{i}    pass\n{i}else:\n{i}    if x:\n{i}        continue",
+          "async for q in x:\n{i}    pass\n{i}else:\n{i}    continue"]
 
 
 def insert_jump(src: str, rng: random.Random) -> str | None:
